@@ -939,14 +939,22 @@ def r8_memo_slots(rep, src):
             for q, fn in mod.funcs.items():
                 if not q.startswith(cname + '.') or '.' in q[len(cname) + 1:]:
                     continue
+                # locals that hold the current content of an attribute (`text = self._cached`)
+                held = {a_.targets[0].id: a_.value.attr for a_ in ast.walk(fn.node) if isinstance(a_, ast.Assign) and len(a_.targets) == 1
+                        and isinstance(a_.targets[0], ast.Name) and isinstance(a_.value, ast.Attribute) and norm(a_.value.value) == 'self'}
                 for st in ast.walk(fn.node):
                     if not (isinstance(st, ast.If) and isinstance(st.test, ast.Compare) and len(st.test.ops) == 1 and isinstance(st.test.ops[0], ast.Is)
-                            and isinstance(st.test.comparators[0], ast.Constant) and st.test.comparators[0].value is None
-                            and isinstance(st.test.left, ast.Attribute) and norm(st.test.left.value) == 'self'):
+                            and isinstance(st.test.comparators[0], ast.Constant) and st.test.comparators[0].value is None):
                         continue
-                    attr = st.test.left.attr
+                    left = st.test.left
+                    if isinstance(left, ast.Attribute) and norm(left.value) == 'self':
+                        attr = left.attr
+                    elif isinstance(left, ast.Name) and left.id in held:
+                        attr = held[left.id]          # the test reads the attribute through the local
+                    else:
+                        continue
                     for a_ in st.body:
-                        if isinstance(a_, ast.Assign) and len(a_.targets) == 1 and norm(a_.targets[0]) == 'self.' + attr:
+                        if isinstance(a_, ast.Assign) and any(norm(t_) == 'self.' + attr for t_ in a_.targets):
                             fills.setdefault(attr, []).append((fn, a_))
             for attr, lst in sorted(fills.items()):
                 n += 1
